@@ -64,7 +64,11 @@ impl LogicalLinesReconstructor for DelphiLogicalLinesReconstructor {
                 let is_eof = matches!(token.get_token_type(), TokenType::Eof);
 
                 if formatting_data.is_ignored() {
-                    if must_break && !token.get_leading_whitespace().contains('\n') && !is_eof {
+                    // the lexer ends a line comment at a lone CR too
+                    if must_break
+                        && !token.get_leading_whitespace().contains(['\n', '\r'])
+                        && !is_eof
+                    {
                         log::warn!("{}", MISSING_LINE_BREAK_WARN);
                         buf.push_str(self.reconstruction_settings.get_newline_str());
                     };
